@@ -152,6 +152,9 @@ pub struct Rec {
 pub struct MapRun {
     pub value: Option<Tree>,
     pub errors: Vec<RealErr>,
+    /// the fterm / fnonterm callbacks in the order they were made: (true, start, token) for a
+    /// terminal, (false, 0, rule) for a nonterminal
+    pub events: Vec<(bool, usize, u16)>,
     /// lexing errors in the returned error list
     pub lex_errors: usize,
     /// iteration order of a probe HashSet created right after the parse: pins down the hash keys
@@ -169,9 +172,47 @@ pub struct ActRun {
     pub notes: Vec<(String, String)>,
 }
 
+/// `sim r-deep <n> <stack MB>`: the real parser alone (unit actions, nothing of the harness's own
+/// tree handling) on `n` openers of `R0: 't0' R0 | 't1';` - an error at end of input under a
+/// parse stack `n` deep - on a stack of the given size. Returns whether the parse came back.
+pub fn run_deep_stack_probe(n: usize, stack_mb: usize) -> bool {
+    let Ok(b) = gram::build("%start R0\n%%\nR0: 't0' R0 | 't1';\n") else { return true };
+    let t0 = b.grm.token_idx("t0").unwrap().0;
+    let toks: Vec<u16> = vec![t0; n];
+    let lexer = StubLexer::new(&toks, &[], &[]);
+    let clock = ClockPolicy { tick_ns: 1000, jumps: vec![] };
+    let (r, _) = sim_process_with_stack(7, Some(&clock), stack_mb << 20, || {
+        let lx: &StubLexer = &lexer;
+        type AF<'a, 'b, 'i> = &'a dyn Fn(RIdx<u16>, &'b dyn NonStreamingLexer<'i, LT>, Span, std::vec::Drain<AStackType<Lx, ()>>, ());
+        let unit = |_: RIdx<u16>, _: &dyn NonStreamingLexer<LT>, _: Span, _: std::vec::Drain<AStackType<Lx, ()>>, _: ()| {};
+        let nprods = usize::from(b.grm.prods_len());
+        let actions: Vec<AF> = (0..nprods).map(|_| &unit as AF).collect();
+        let (v, errs) = RTParserBuilder::<u16, LT>::new(&b.grm, &b.st).recoverer(RecoveryKind::CPCTPlus).parse_actions(&lx, &actions, ());
+        (v.is_some(), errs.len())
+    });
+    match r {
+        SimOutcome::Ok((v, e)) => {
+            println!("deep-stack probe: n={n} stack={stack_mb}MB returned value={v} errors={e}");
+            true
+        }
+        SimOutcome::Panic(m) => {
+            println!("deep-stack probe: n={n} panicked: {m}");
+            false
+        }
+    }
+}
+
+/// Reductions beyond which a run is taken to loop (hidden left recursion): an acyclic grammar
+/// reduces at most (rules + 1) times per stack entry, and inserts are bounded by the cost cap.
+fn call_cap_for(b: &Built, lexer: &StubLexer) -> usize {
+    ACTION_CALL_CAP + lexer.lexemes.len() * 4 * (usize::from(b.grm.rules_len()) + 1)
+}
+
 fn real_parse_map(b: &Built, lexer: &StubLexer, costs: &[u8], hash_seed: u64, clock: &ClockPolicy) -> (SimOutcome<MapRun>, SimStats) {
     sim_process_with_stack(hash_seed, Some(clock), SUBJECT_STACK, || {
         let calls = Cell::new(0usize);
+        let call_cap = call_cap_for(b, lexer);
+        let events: RefCell<Vec<(bool, usize, u16)>> = RefCell::new(vec![]);
         let cf = |t: TIdx<u16>| costs[usize::from(t)];
         let lx: &StubLexer = lexer;
         // the two setters commute: which comes first alternates with the scenario's hash seed
@@ -180,11 +221,15 @@ fn real_parse_map(b: &Built, lexer: &StubLexer, costs: &[u8], hash_seed: u64, cl
         let (v, errs) = pb
             .parse_map(
                 &lx,
-                &|l: Lx| Tree::Term { tok: l.tok_id, start: l.start, len: l.len, faulty: l.faulty },
+                &|l: Lx| {
+                    events.borrow_mut().push((true, l.start, l.tok_id));
+                    Tree::Term { tok: l.tok_id, start: l.start, len: l.len, faulty: l.faulty }
+                },
                 &|ridx: RIdx<u16>, kids: Vec<Tree>| {
+                    events.borrow_mut().push((false, 0, ridx.0));
                     calls.set(calls.get() + 1);
-                    if calls.get() > ACTION_CALL_CAP {
-                        panic!("HARNESS-LOOP-GUARD: more than {ACTION_CALL_CAP} reductions");
+                    if calls.get() > call_cap {
+                        panic!("HARNESS-LOOP-GUARD: more than {call_cap} reductions");
                     }
                     Tree::Nonterm { ridx: ridx.0, pidx: None, kids }
                 },
@@ -192,13 +237,14 @@ fn real_parse_map(b: &Built, lexer: &StubLexer, costs: &[u8], hash_seed: u64, cl
         let probe: Vec<u32> = (0..16u32).collect::<std::collections::HashSet<u32>>().into_iter().collect();
         let hash_probe = fnv(&probe.iter().flat_map(|x| x.to_le_bytes()).collect::<Vec<u8>>());
         let lex_errors = errs.iter().filter(|e| matches!(e, LexParseError::LexError(_))).count();
-        MapRun { value: v, errors: conv_errs(errs), lex_errors, hash_probe }
+        MapRun { value: v, errors: conv_errs(errs), events: events.into_inner(), lex_errors, hash_probe }
     })
 }
 
 fn real_parse_actions(b: &Built, lexer: &StubLexer, costs: &[u8], hash_seed: u64, clock: &ClockPolicy, rk: RecoveryKind) -> (SimOutcome<ActRun>, SimStats) {
     sim_process_with_stack(hash_seed, Some(clock), SUBJECT_STACK, || {
         let recs: RefCell<Vec<Rec>> = RefCell::new(vec![]);
+        let call_cap = call_cap_for(b, lexer);
         let cf = |t: TIdx<u16>| costs[usize::from(t)];
         let lx: &StubLexer = lexer;
         let nprods = usize::from(b.grm.prods_len());
@@ -220,8 +266,8 @@ fn real_parse_actions(b: &Built, lexer: &StubLexer, costs: &[u8], hash_seed: u64
                         })
                         .collect();
                     let mut r = recs.borrow_mut();
-                    if r.len() > ACTION_CALL_CAP {
-                        panic!("HARNESS-LOOP-GUARD: more than {ACTION_CALL_CAP} reductions");
+                    if r.len() > call_cap {
+                        panic!("HARNESS-LOOP-GUARD: more than {call_cap} reductions");
                     }
                     r.push(Rec { pidx: p as u16, ridx: ridx.0, span: (span.start(), span.end()), args, param });
                     r.len() - 1
@@ -238,6 +284,47 @@ fn real_parse_actions(b: &Built, lexer: &StubLexer, costs: &[u8], hash_seed: u64
         drop(closures);
         ActRun { value: v, errors, lex_errors, recs: recs.into_inner(), notes: vec![] }
     })
+}
+
+/// C08's last sentence through the public API: `parse_generictree` and `parse_actions` with
+/// `action_generictree` for every production, as the same simulated process twice;
+/// Some(description) if the two results differ.
+#[allow(deprecated)]
+fn real_generictree_both_ways(b: &Built, lexer: &StubLexer, costs: &[u8], hash_seed: u64, clock: &ClockPolicy) -> Result<Option<String>, String> {
+    use lrpar::Node;
+    fn size(n: &Node<Lx, u16>) -> usize {
+        match n {
+            Node::Term { .. } => 1,
+            Node::Nonterm { nodes, .. } => 1 + nodes.iter().map(size).sum::<usize>(),
+        }
+    }
+    let (r1, _) = sim_process_with_stack(hash_seed, Some(clock), SUBJECT_STACK, || {
+        let cf = |t: TIdx<u16>| costs[usize::from(t)];
+        let lx: &StubLexer = lexer;
+        let (t, e) = RTParserBuilder::<u16, LT>::new(&b.grm, &b.st).recoverer(RecoveryKind::CPCTPlus).term_costs(&cf).parse_generictree(&lx);
+        (t, conv_errs(e))
+    });
+    let (r2, _) = sim_process_with_stack(hash_seed, Some(clock), SUBJECT_STACK, || {
+        let cf = |t: TIdx<u16>| costs[usize::from(t)];
+        let lx: &StubLexer = lexer;
+        type GA<'a, 'b, 'i> = &'a dyn Fn(RIdx<u16>, &'b dyn NonStreamingLexer<'i, LT>, Span, std::vec::Drain<AStackType<Lx, Node<Lx, u16>>>, ()) -> Node<Lx, u16>;
+        let nprods = usize::from(b.grm.prods_len());
+        let actions: Vec<GA> = (0..nprods).map(|_| &lrpar::action_generictree::<u16, LT> as GA).collect();
+        let (t, e) = RTParserBuilder::<u16, LT>::new(&b.grm, &b.st).recoverer(RecoveryKind::CPCTPlus).term_costs(&cf).parse_actions(&lx, &actions, ());
+        (t, conv_errs(e))
+    });
+    match (r1, r2) {
+        (SimOutcome::Ok((t1, e1)), SimOutcome::Ok((t2, e2))) => {
+            if e1 != e2 {
+                return Ok(Some(format!("parse_generictree reports {} errors, parse_actions with action_generictree {}", e1.len(), e2.len())));
+            }
+            if t1 != t2 {
+                return Ok(Some(format!("parse_generictree gives {} nodes, parse_actions with action_generictree {} nodes (same errors and repairs reported)", t1.as_ref().map(size).unwrap_or(0), t2.as_ref().map(size).unwrap_or(0))));
+            }
+            Ok(None)
+        }
+        (SimOutcome::Panic(m), _) | (_, SimOutcome::Panic(m)) => Err(m),
+    }
 }
 
 // ---------------------------------------------------------------------------------------------
@@ -431,7 +518,7 @@ pub fn execute(sc: &RScenario, opts: &ExecOpts) -> RunReport {
         match &ao {
             SimOutcome::Ok(a) => {
                 let value = a.value.filter(|v| *v < a.recs.len()).map(|v| build_tree(&a.recs, v));
-                (SimOutcome::Ok(MapRun { value, errors: a.errors.clone(), lex_errors: a.lex_errors, hash_probe: 0 }), astats.clone())
+                (SimOutcome::Ok(MapRun { value, errors: a.errors.clone(), events: vec![], lex_errors: a.lex_errors, hash_probe: 0 }), astats.clone())
             }
             SimOutcome::Panic(m) => (SimOutcome::Panic(m.clone()), astats.clone()),
         }
@@ -476,6 +563,42 @@ pub fn execute(sc: &RScenario, opts: &ExecOpts) -> RunReport {
     }
     if mstats.clock_reads != astats.clock_reads {
         j.viol("C08", "actions-vs-map-clock", format!("parse_map read the clock {} times, parse_actions {}", mstats.clock_reads, astats.clock_reads));
+    }
+
+    // parse_map's callbacks come in the order of the reductions: for each node of the final tree,
+    // bottom-up and left to right, its terminal children left to right and then the node itself.
+    if opts.act_runner.is_none() {
+        if let Some(t) = &map.value {
+            fn expect(t: &Tree, out: &mut Vec<(bool, usize, u16)>) {
+                if let Tree::Nonterm { ridx, kids, .. } = t {
+                    for k in kids {
+                        expect(k, out);
+                    }
+                    for k in kids {
+                        if let Tree::Term { tok, start, .. } = k {
+                            out.push((true, *start, *tok));
+                        }
+                    }
+                    out.push((false, 0, *ridx));
+                }
+            }
+            let mut exp = vec![];
+            expect(t, &mut exp);
+            // reductions undone by a failed parse attempt never happen in the real driver; replayed
+            // ones are made once. The callback history must be exactly the final tree's.
+            if exp != map.events {
+                let at = exp.iter().zip(&map.events).position(|(a, b)| a != b).unwrap_or(exp.len().min(map.events.len()));
+                j.viol("C08", "C08-a-map-callback-order", format!("parse_map made {} callbacks, the returned tree implies {}; first difference at callback {at}: made {:?}, expected {:?}", map.events.len(), exp.len(), map.events.get(at), exp.get(at)));
+            }
+        }
+        // every fourth scenario: the generic tree through the two public routes
+        if sc.hash_seed % 4 == 0 && mstats.elapsed_ns < BUDGET_NS {
+            match real_generictree_both_ways(b, &lexer, &prep.costs, sc.hash_seed, &sc.clock) {
+                Ok(None) => j.rep.probes.hit("generic_tree_built_both_ways"),
+                Ok(Some(d)) => j.viol("C08", "C08-e-actions-vs-generic-tree", d),
+                Err(m) => classify_panic(&mut j, &prep, sc, &m, "parse_generictree / parse_actions(action_generictree)"),
+            }
+        }
     }
 
     let may_timeout = mstats.elapsed_ns >= BUDGET_NS;
@@ -630,6 +753,9 @@ pub fn execute(sc: &RScenario, opts: &ExecOpts) -> RunReport {
                             "C07-f-empty-without-deadline",
                             format!("error {ei}: no repair sequences although no deadline can have passed (simulated elapsed {} ns) and a repair of cost {cost} exists, e.g. [{}]", mstats.elapsed_ns, fmt_seq(&strip(&cands[0].seq))),
                         );
+                        // ... which is also C06's completeness clause at its extreme: every
+                        // minimum-cost repair is missing from the reported set
+                        j.viol("C06", "C06-d-incomplete", format!("error {ei} at lexeme {k2}: reported 0 sequences although no deadline can have passed; the reference has a repair of cost {cost}"));
                     } else {
                         j.rep.probes.hit("recoveries_cut_by_deadline");
                         let d = if sc.base_reads > 0 { 10 * sc.clock.jumps.first().map(|x| x.0).unwrap_or(mstats.clock_reads).min(sc.base_reads) / (sc.base_reads + 1) } else { 10 };
@@ -1425,6 +1551,69 @@ fn gen_long_junk(r: &mut Rng) -> RScenario {
     }
 }
 
+/// Repair sequences around 250 elements long (the ranking window's size): 240-420 stray lexemes
+/// between two good ones, which can only be deleted.
+fn gen_mid_junk(r: &mut Rng) -> RScenario {
+    let grammar = "%start R0\n%%\nR0: 't0' 't2';\nR1: 't1';\n".to_string();
+    let n = 240 + r.below(181) as usize;
+    let mut tokens = vec!["t0".to_string()];
+    tokens.extend((0..n).map(|_| "t1".to_string()));
+    tokens.push("t2".into());
+    RScenario {
+        origin: "mid-junk".into(),
+        grammar,
+        gaps: vec![],
+        tokens,
+        costs: BTreeMap::new(),
+        hash_seed: r.next(),
+        clock: ClockPolicy { tick_ns: (BUDGET_NS / (8 * n as u64)).max(1), jumps: vec![] },
+        policy_class: "tick".into(),
+        base_reads: 0,
+        zero_width: vec![],
+        lex_error: None,
+    }
+}
+
+/// Parse stacks deeper than the ranking window when the error is met: 260-700 openers, then the
+/// innermost item, then none / some / all-but-a-few of the closers, so that the cheapest repair
+/// has to unwind (or complete) hundreds of stack entries.
+fn gen_deep_nest(r: &mut Rng) -> RScenario {
+    let (grammar, open, mid, close): (&str, &str, &str, Option<&str>) = *r.pick(&[
+        ("%start R0\n%%\nR0: 't0' R0 't1' | 't2';\n", "t0", "t2", Some("t1")),
+        ("%start R0\n%%\nR0: 't0' R0 | 't1';\n", "t0", "t1", None),
+        ("%start R0\n%%\nR0: R1 't3';\nR1: 't0' R1 't1' | 't2' | ;\n", "t0", "t2", Some("t1")),
+    ]);
+    let n = 260 + r.below(441) as usize;
+    let mut tokens: Vec<String> = (0..n).map(|_| open.to_string()).collect();
+    match r.below(3) {
+        0 => {}                              // the innermost item is missing too
+        1 => tokens.push(mid.into()),
+        _ => {
+            tokens.push(mid.into());
+            if let Some(c) = close {
+                let m = if r.chance(50) { n - 1 - r.below(3) as usize } else { r.below(n as u64) as usize };
+                tokens.extend((0..m).map(|_| c.to_string()));
+            }
+        }
+    }
+    if grammar.contains("'t3'") && r.chance(70) {
+        tokens.push("t3".into());
+    }
+    RScenario {
+        origin: "deep-nest".into(),
+        grammar: grammar.to_string(),
+        gaps: vec![],
+        tokens,
+        costs: BTreeMap::new(),
+        hash_seed: r.next(),
+        clock: ClockPolicy { tick_ns: (BUDGET_NS / (16 * n as u64)).max(1), jumps: vec![] },
+        policy_class: "tick".into(),
+        base_reads: 0,
+        zero_width: vec![],
+        lex_error: None,
+    }
+}
+
 /// Inputs on which the ranking window (TRY_PARSE_AT_MOST = 250 lexemes beyond the error) binds:
 /// the grammar is wrapped into a list (`RL: RL R0 't99' | R0 't99';`), the input is 300-700
 /// lexemes of sentences of the inner grammar, and the edits that make it erroneous all lie in its
@@ -1484,6 +1673,12 @@ pub fn gen_base(r: &mut Rng, gp: &GenParams) -> Option<RScenario> {
     }
     if which == 97 && r.chance(40) {
         return gen_long_tail(r, gp);
+    }
+    if which == 96 && r.chance(25) {
+        return Some(gen_mid_junk(r));
+    }
+    if which == 95 && r.chance(25) {
+        return Some(gen_deep_nest(r));
     }
     let (origin, grammar) = if which < 12 {
         let (n, g) = *r.pick(gram::CORPUS);
